@@ -9,5 +9,8 @@ c_GENVALS == [o1 |-> [k |-> "k4", p |-> 2], o2 |-> [k |-> "k2", p |-> 1]]
 \* truncated powers (power = floor(amount / 10))
 c_GENVALS_sub == [o1 |-> [k |-> "k4", p |-> 20], o2 |-> [k |-> "k2", p |-> 10]]
 c_DEVS_none == {}
-c_DEVS_code == {"L3", "LEAK", "ACT", "L17", "WINDOW"}
+\* the current tree
+c_DEVS_code == {"L3", "LEAK", "ACT", "L17", "WINDOW", "PCHOOK"}
+\* regression guard: the deviations the properties must be able to see (pre-fix tree)
+c_DEVS_guard == {"L3", "LEAK", "ACT", "L17", "WINDOW", "PCHOOK"}
 =============================================================================
